@@ -147,3 +147,81 @@ func runScans(h *Harness, cfg *Config) (results []scanResult, violations, gaps [
 }
 
 func ptrTo(t types.Type) types.Type { return types.NewPointer(t) }
+
+// ---- fields written through sync/atomic ----
+
+// atomicFieldKey names a struct field: "<named struct type>#<index>".
+func atomicFieldKey(ptrToStruct types.Type, field int) string {
+	pt, ok := ptrToStruct.Underlying().(*types.Pointer)
+	if !ok {
+		return ""
+	}
+	return fmt.Sprintf("%s#%d", pt.Elem().String(), field)
+}
+
+var atomicWriters = map[string]bool{}
+
+func init() {
+	for _, op := range []string{"Store", "Add", "Swap", "CompareAndSwap", "And", "Or"} {
+		for _, t := range []string{"Int32", "Int64", "Uint32", "Uint64", "Uintptr", "Pointer"} {
+			atomicWriters["sync/atomic."+op+t] = true
+		}
+	}
+}
+
+// atomicFieldScan returns the struct fields of the repository under test whose
+// address is handed to a writing sync/atomic function somewhere in it (the
+// value says where).  A plain load, store or whole-struct copy of such a field
+// in code that runs concurrently with that writer is a data race.
+func atomicFieldScan(cfg *Config) map[string]string {
+	res := map[string]string{}
+	for _, pkg := range cfg.prog.AllPackages() {
+		path := pkg.Pkg.Path()
+		if !strings.HasPrefix(path, repoMod+"/internal") || strings.Contains(path, "/internal/next") {
+			continue
+		}
+		pkg.Build()
+		var walk func(f *ssa.Function)
+		walk = func(f *ssa.Function) {
+			for _, b := range f.Blocks {
+				for _, ins := range b.Instrs {
+					call, ok := ins.(ssa.CallInstruction)
+					if !ok {
+						continue
+					}
+					cc := call.Common()
+					sc := cc.StaticCallee()
+					if sc == nil || !atomicWriters[sc.String()] || len(cc.Args) == 0 {
+						continue
+					}
+					if fa, ok := cc.Args[0].(*ssa.FieldAddr); ok {
+						if k := atomicFieldKey(fa.X.Type(), fa.Field); k != "" {
+							if _, seen := res[k]; !seen {
+								res[k] = fmt.Sprintf("%s at %s", sc.Name(), cfg.prog.Fset.Position(ins.Pos()))
+							}
+						}
+					}
+				}
+			}
+			for _, af := range f.AnonFuncs {
+				walk(af)
+			}
+		}
+		for _, m := range pkg.Members {
+			switch m := m.(type) {
+			case *ssa.Function:
+				walk(m)
+			case *ssa.Type:
+				for _, T := range []types.Type{m.Type(), ptrTo(m.Type())} {
+					ms := cfg.prog.MethodSets.MethodSet(T)
+					for i := 0; i < ms.Len(); i++ {
+						if fn := cfg.prog.MethodValue(ms.At(i)); fn != nil && fn.Pkg == pkg {
+							walk(fn)
+						}
+					}
+				}
+			}
+		}
+	}
+	return res
+}
